@@ -225,14 +225,19 @@ func runVacuum(c *Case, id string) {
 			stmt(wi, "upd", k, map[string]string{"b": tag})
 		case x < 60:
 			stmt(wi, "del", k, nil)
-		case x < 70: // insert then delete: the table returns to an earlier content
+		case x < 67: // insert then delete: the table returns to an earlier content
 			k2 := 100 + i
 			if stmt(wi, "ins", k2, map[string]string{"a": tag}) {
 				stmt(wi, "del", k2, nil)
 			}
-		case x < 76: // update and revert
+		case x < 71: // update and revert
 			if stmt(wi, "upd", k, map[string]string{"c": tag}) {
 				stmt(wi, "upd", k, map[string]string{"c": "NULL"})
+			}
+		case x < 79 && nw >= 2: // a delete on one writer, a later update of the same row on another that has not seen it
+			wj := (wi + 1 + r.Intn(nw-1)) % nw
+			if stmt(wi, "del", k, nil) {
+				stmt(wj, "upd", k, map[string]string{"b": tag + "late"})
 			}
 		case x < 80: // delete everything
 			for kk := 1; kk <= nkeys && c.Res.Status != "violated"; kk += r.Range(1, 3) {
@@ -355,6 +360,21 @@ func runVacuum(c *Case, id string) {
 		cutoff, cutKind = vclock+100, "after-everything"
 	default:
 		cutoff, cutKind = 365*24*3600*20, "far-future"
+	}
+	// a marker whose row was updated (by a writer that had not seen the delete) after it was deleted:
+	// the delete time, not the row's last modification, decides
+	{
+		var cands []int
+		for i := range preWalk.Entries {
+			e := &preWalk.Entries[i]
+			if e.Row != nil && e.Row.Deleted && e.DeleteTime()+int64(time.Second) <= e.Mod {
+				cands = append(cands, int(time.Unix(0, e.DeleteTime()).Sub(baseTime)/time.Second))
+			}
+		}
+		c.Count("markers_with_later_update", int64(len(cands)))
+		if len(cands) > 0 && r.Intn(3) == 0 {
+			cutoff, cutKind = cands[r.Intn(len(cands))]+1, "between-a-delete-and-a-later-update-of-the-row"
+		}
 	}
 	c.Distinct("cutoff_kinds", cutKind)
 	cutNanos := tnanos(cutoff)
